@@ -123,6 +123,19 @@ theorem get_path_then_canonicalize_never_fails (rn : Bytes) (comps : List Bytes)
     pathOf rn comps ≠ .error .canonFail :=
   pathOf_ne_canonFail rn comps
 
+/-- Behind an `is_filename_sane` gate, the '/', "." and ".." tests of `sqfs_tree_node_get_path` never decide
+    anything: for a sane name the only live test is the one for the empty name.  (This is why removing those tests
+    alone is an equivalent mutant for the unpacker; the check reports it only together with a missing gate.) -/
+theorem get_path_tests_redundant_behind_gate (c : Bytes) (h : isFilenameSane c = true) :
+    badComp c = true ↔ c = [] := by
+  obtain ⟨h1, h2, h3⟩ := (Sqfs.C18.sane_iff c).1 h
+  constructor
+  · intro hb
+    by_cases hc : c = []
+    · exact hc
+    · exact absurd ((badComp_false_iff c).2 ⟨hc, h3, h1, h2⟩) (by simp [hb])
+  · intro hc; subst hc; rfl
+
 /-! ### non-vacuity and sanity of the model -/
 
 section examples
